@@ -524,6 +524,11 @@ def decide_equal(a, b, budget=None, _why=None):
             for k in (ta ^ tb):
                 if _unmodelled(k):
                     return 'unknown'
+                at_ = TABLE.atoms[k]
+                if at_.kind == 'fn' and at_.name == 'ite':
+                    # a conditional value on one side only is not an independent generator: ite(c, X, X') IS X when both arms are;
+                    # the caller splits on the condition (symcheck.case_split)
+                    return 'unknown'
             if _why is not None and not _why:
                 _why.append((a, b))
             return 'different'
